@@ -199,6 +199,28 @@ class UNewMismatch(Exception):
     super().__init__('code %s: %s' % (code, detail))
     self.code = code
 
+class UNewValidates(Exception):
+  # __new__ validates its argument with an error of its own; __init__ leaves
+  # a formatted message in args, which __new__ would reject
+  CODES = {404: 'not found', 500: 'server error'}
+  def __new__(cls, code):
+    if code not in cls.CODES:
+      raise ValueError('unknown code %r' % (code,))
+    return super().__new__(cls, code)
+  def __init__(self, code):
+    super().__init__('%d %s' % (code, self.CODES[code]))
+    self.code = code
+
+class UNewLookup(Exception):
+  # the same with a KeyError out of __new__
+  TABLE = {'a': 1}
+  def __new__(cls, key):
+    cls.TABLE[key]
+    return super().__new__(cls, key)
+  def __init__(self, key):
+    super().__init__('entry %s=%d' % (key, self.TABLE[key]))
+    self.key = key
+
 class UVarArgs(Exception):
   # __new__ wants two arguments; what ends up in args depends on the instance
   def __new__(cls, source, line):
@@ -277,6 +299,8 @@ USER_CTORS = [
     ('UFinal', "UFinal('final')"),
     ('UGroupDocs', "UGroupDocs([ValueError(1)], 3)"),
     ('UBaseExc', "UBaseExc('base')"),
+    ('UNewValidates', "UNewValidates(404)"),
+    ('UNewLookup', "UNewLookup('a')"),
 ]
 
 
